@@ -80,7 +80,7 @@ def delivers(prog: Program, cls, pname: str, depth: int = 0) -> bool:
     init, _added, stored, super_call = facts
     if pname not in init.params:
         return False
-    if pname in stored and names_loaded(stored[pname].value) & set(init.params) == {pname}:
+    if pname in stored and _param_sources(init, stored[pname]) == {pname}:
         return True
     if super_call is not None:
         fwd = {k.arg: k.value for k in super_call.keywords if k.arg}
@@ -89,6 +89,28 @@ def delivers(prog: Program, cls, pname: str, depth: int = 0) -> bool:
                 if "__init__" in b.methods:
                     return delivers(prog, b, pname, depth + 1)
     return False
+
+
+def check_delivery(ck: Checker, prog: Program, rule: str, class_names, only=None, why: str = "", floor: int = 1):
+    """Every constructor argument of the named settings classes ends up stored on the object under its own name (directly or
+    through the base-class chain).  A dropped argument silently replaces the requested setting by the base-class default."""
+    n = 0
+    for cname in class_names:
+        c = prog.cls(cname)
+        init = c.methods.get("__init__")
+        if init is None:
+            continue
+        for p_ in init.params[1:]:
+            if only is not None and p_ not in only:
+                continue
+            n += 1
+            if delivers(prog, c, p_):
+                ck.ok(rule, init.qualname, f"constructor argument {p_} is stored")
+            else:
+                ck.violation(rule, init.qualname, f"constructor argument {p_}",
+                             f"`{p_}` handed to {cname}(...) is not stored (the base-class default is used instead){': ' + why if why else ''}",
+                             loc=init.loc())
+    ck.floor(rule, n, floor, "constructor arguments of the settings classes")
 
 
 def _param_sources(init, st: ast.Assign) -> Set[str]:
@@ -246,7 +268,22 @@ class _Dispatch:
                 return self.env[x.id]
             if x.id in self.prog.classes:
                 return ("class", x.id)
+            mod = getattr(self, "module", None)
+            r = self.prog.resolve_name(mod, x.id) if mod is not None else None
+            if r and r[0] == "const" and isinstance(r[1][0], ast.Dict):
+                return ("table", r[1][0])       # a module-level lookup table: its values exist once, from import time on
             raise AnalysisError(f"dispatcher: cannot evaluate name `{x.id}`")
+        if isinstance(x, ast.Subscript) and not isinstance(x.slice, ast.Constant):
+            b = self.ev(x.value)
+            if isinstance(b, tuple) and b[0] == "table":
+                key = self.ev(x.slice)
+                for k, v in zip(b[1].keys, b[1].values):
+                    if isinstance(k, ast.Constant) and k.value == key:
+                        val = self.ev(v)
+                        if isinstance(val, tuple) and val[0] == "obj":
+                            return ("obj", val[1], "shared")     # constructed when the module was imported, not by this call
+                        return val
+                raise KeyError(key)
         if isinstance(x, ast.Subscript) and isinstance(x.slice, ast.Constant):
             b = self.ev(x.value)
             if b == ("dict",):
@@ -307,6 +344,16 @@ class _Dispatch:
                 r = self.run(st.body)
                 if r is not None:
                     return r
+            elif isinstance(st, ast.Try):
+                try:
+                    r = self.run(list(st.body) + list(st.orelse))
+                except KeyError:
+                    hs = [h for h in st.handlers if h.type is None or any(isinstance(n_, ast.Name) and n_.id in ("KeyError", "LookupError", "Exception") for n_ in ast.walk(h.type))]
+                    if not hs:
+                        raise
+                    r = self.run(hs[0].body)
+                if r is not None:
+                    return r
             elif isinstance(st, (ast.Expr, ast.Pass)):
                 continue
             else:
@@ -328,10 +375,15 @@ def _r3(ck: Checker, prog: Program, public: List[str]):
         c = prog.cls(cname)
         env = _class_defaults(prog, c)
         d = _Dispatch(prog, dname, env)
+        d.module = f.module
         loaded_ok = None
         try:
             res = d.run(f.node.body)
             got = res[1] if isinstance(res, tuple) and res[0] == "obj" else str(res)
+            if isinstance(res, tuple) and res[0] == "obj" and len(res) == 3:
+                ck.violation("C15.R3", fq, f"shared instance for {cname}",
+                             f"a file saved from a {cname} is read into an object that was constructed when the module was imported: every read returns "
+                             f"(and overwrites) the same object", loc=f.loc())
             ret_name = None
             loaded_ok = bool(d.loaded)
         except KeyError as e:
